@@ -30,21 +30,17 @@ C04_xform_total_partial C04_xform_total_counterexample
 C04_config_total_partial C04_config_total_counterexample C04_config_malformed_as C04_hint_object_prefix_panicked
 C04_fromAST_total_partial C04_fromAST_total_counterexample C04_fromAST_dangling_panicked_before_fix C04_fromAST_diverges_on_alias_cycle
 C04_option_actions_total_partial C04_option_actions_total_counterexample
-C04_parse_total_openapi_partial C04_parse_total_openapi_counterexample C04_parse_openapi_witnesses
-C04_parse_total_jsonschema_partial C04_parse_total_jsonschema_counterexample C04_parse_jsonschema_witness
+C04_parse_total_openapi_partial C04_parse_total_openapi_prefix_partial C04_parse_total_openapi_counterexample
+C04_parse_openapi_prefix_witnesses C04_parse_openapi_fixed
+C04_parse_total_jsonschema_partial C04_parse_total_jsonschema_counterexample C04_parse_jsonschema_prefix_witness
 C04_parse_wf_openapi C04_parse_wf_jsonschema C04_partial_ops_accounted
 """.split()]
 
 C04_WORK = os.path.join(WORK, "c04")
 FACTS = os.path.join(WORK, "c20", "facts.json")
-PROPOSED = [os.path.join(WORK, "proposed_findings_C04.json"), os.path.join(VERIF, "checks", "c04.findings.json")]
 
 # the Lean counterexample witnesses and the corpus case that replays each on the real code
 WITNESS_REPLAYS = {
-    "C04_parse_openapi_witnesses/enumWithoutType": ("corpus/openapi-enum-without-type", r"walkEnum"),
-    "C04_parse_openapi_witnesses/arrayWithoutItems": ("corpus/openapi-array-without-items", r"walkSchemaRef"),
-    "C04_parse_openapi_witnesses/unresolvedComponent": ("corpus/openapi-alias-cycle", r"schemaComments"),
-    "C04_parse_jsonschema_witness/tupleItems": ("corpus/jsonschema-tuple-items-draft07", r"walkList"),
     "C04_pass_witnesses/wMixedEnum": ("corpus/jsonschema-mixed-enum", r"enumMemberNameFromValue|sanitizeEnumMember"),
     "C04_pass_witnesses/wDiscriminatorOnScalars": ("corpus/openapi-discriminator-on-scalars", r"buildDiscriminatorMapping"),
     "C04_config_total_counterexample/retypeThenConstantToEnum": ("corpus-config/constant-to-enum-non-string", r"ConstantToEnum"),
@@ -53,19 +49,6 @@ WITNESS_REPLAYS = {
     "C04_config_malformed_as": ("corpus-config/retype-object-nil-struct", r"AsStruct|Struct"),
     "C04_option_actions_total_counterexample": ("corpus-config/unfold-boolean-on-added-option", r"UnfoldBoolean"),
 }
-
-
-def load_findings(c):
-    seen = {f["id"] for f in c.known}
-    for path in PROPOSED:
-        if os.path.exists(path):
-            try:
-                for f in json.load(open(path)).get("findings", []):
-                    if f.get("property") == "C04" and f["id"] not in seen:
-                        c.known.append(f)
-                        seen.add(f["id"])
-            except ValueError:
-                pass
 
 
 def run_stream(binary, stream, timeout=7200, **kw):
@@ -82,6 +65,17 @@ def run_stream(binary, stream, timeout=7200, **kw):
             if len(parts) >= 4:
                 rows.append((json.loads(parts[1]), parts[2], None if parts[3] == "-" else json.loads(parts[3])))
     return rows, p.stderr
+
+
+# pinned inputs of the defects FIXED in /repo (commit ids in known_findings.json `fixed`): the run must
+# end with an error return; a panic again is an unrecorded class, i.e. a VIOLATION
+FIXED_PINNED = {
+    "corpus/openapi-enum-without-type": "70c59a6", "corpus/openapi-enum-without-type-validated": "70c59a6",
+    "corpus/openapi-array-without-items": "4e6f2a6", "corpus/jsonschema-tuple-items-draft07": "f0d68ac",
+    "corpus-config/inputs-null-element": "15208a9", "corpus-config/languages-null-element": "15208a9",
+    "corpus-config/passes-file-null": "4823a7e", "corpus-config/veneers-file-null": "4823a7e",
+    "corpus-config/retype-then-hint": "d683cb9",
+}
 
 
 def route_of(rid, note):
@@ -124,7 +118,6 @@ def pred_key(op):
 def main():
     c = Check("C04")
     os.makedirs(C04_WORK, exist_ok=True)
-    load_findings(c)
     c.trusted = [
         "Lean 4.33 kernel; axioms per theorem in obligation_list (subset of propext, Classical.choice, Quot.sound)",
         "the Lean models of the passes (C06), transformations (C15), FromAST/veneers (C16/C17) — tied to the code by those properties' correspondence streams; here additionally by the prediction check (hypotheses hold => the real code must not panic)",
@@ -165,7 +158,7 @@ def main():
 
     # ---------------- the crash stream ----------------
     if c.tier == "quick":
-        vol = dict(nmut=2600, nir=500, npy=700, nvy=400, ncfg=900, perseed=2, depth=3)
+        vol = dict(nmut=8000, nir=1200, npy=2000, nvy=1200, ncfg=2500, perseed=3, depth=3)
     else:
         vol = dict(nmut=160000, nir=30000, npy=40000, nvy=25000, ncfg=50000, perseed=20, depth=4)
     t0 = time.time()
@@ -228,6 +221,8 @@ def main():
 
     # (a) a theorem's hypotheses hold and the real code panics
     for res, case, op, frame, msg in contradicted[:5]:
+        if case and case.get("kind") == "ir":
+            case = dict(case, op=op)  # shrink towards the operation whose theorem is contradicted
         small = shrink(hb, case)[0] if case else None
         c.violation({"kind": "theorem-contradicted", "what": "the decidable hypotheses of the C04 partial theorem for `%s` hold on this IR (driver: c04pred) but the real code panics: the Lean model no longer describes the code" % op,
                      "op": op, "frame": frame, "msg": msg, "case": small or case, "vir": res.get("extra", "")[:20000], "stack": res.get("stack", "")[:3000]})
@@ -277,7 +272,10 @@ def main():
         r = corpus_results.get(cid)
         if r is None or r["outcome"] in ("ok", "err") or not re.search(frame_re, r.get("frame", "") + " " + r.get("stage", "")):
             stale.append((name, cid, (r or {}).get("outcome"), (r or {}).get("frame")))
-    c.cov["witness_replays"] = {"checked": len(WITNESS_REPLAYS), "no_longer_failing_as_modelled": stale}
+    relapsed = [(cid, fix, corpus_results.get(cid, {}).get("outcome")) for cid, fix in FIXED_PINNED.items()
+                if corpus_results.get(cid, {}).get("outcome") not in ("ok", "err")]
+    c.oblige("the pinned inputs of the defects fixed in /repo end in ok/err (no relapse)", not relapsed, relapsed)
+    c.cov["witness_replays"] = {"checked": len(WITNESS_REPLAYS), "no_longer_failing_as_modelled": stale, "fixed_pinned_checked": len(FIXED_PINNED)}
     # informational only: a witness that stops panicking means cog fixed the defect (the `_full` counterexample
     # theorem then describes a model that is stricter than the code) — reported, not an alarm by itself
     if stale:
